@@ -9,6 +9,14 @@ B are reset to None / removed) and packed again: the "reused object" half of the
 (decoding with `_unpack` into a dirty object is not a usage paramiko has: `_from_msg`
 always starts from a fresh object, so it is not generated).
 
+History on one object (round 3): between filling / decoding an object and encoding it, the object may be LOOKED AT by
+the read-only operations the class offers - str(a) (the `ls -l` line), repr(a), a.asbytes(), Message.add_string(a)
+(what SFTPServer does for every CMD_NAME entry: longname first, then `_pack`).  A case carries a generated list of
+(position, observer) pairs, position in {source object A before its pack, object decoded from A before its re-encoding,
+re-filled source object B before its pack, object decoded from B before its re-encoding}.  Observers are not part of
+the verdict themselves (an observer that raises is only counted); the oracle below is unchanged and is applied to
+whatever the observed objects encode to, plus (b') below.
+
 Oracle, per packed set:
   (a) the bytes parse with the independent reader (vlib.refssh) as
       uint32 flags | [uint64 size] | [uint32 uid, uint32 gid] | [uint32 mode] |
@@ -17,6 +25,7 @@ Oracle, per packed set:
       (1, 2, 4, 8, 0x80000000) and the values equal (times truncated with int());
   (b) SFTPAttributes._from_msg(Message(bytes)) has the present fields equal (times as
       int), absent fields None, attr == the UTF-8 encoded map, _flags == expected bits;
+  (b') after the observers of the decoded object ran, its fields / extended map / _flags are still those of (b);
   (c) re-encoding the decoded object gives identical bytes;
   (d) the source object's _flags after _pack == expected bits.
 """
@@ -28,6 +37,8 @@ PROPERTY = "C33"
 LEVEL = "exploration"
 RULE = (
     "hypothesis-generated pairs of attribute sets packed one after the other from the same SFTPAttributes object; "
+    "plus a generated list (0-4) of read-only observations (str / repr / asbytes / Message.add_string) applied to the source "
+    "object before a pack or to the decoded object before its re-encoding; "
     "each set picks presence of size/uid+gid/mode/atime+mtime/extended independently, values dense at 0, 2^31, 2^32-1, "
     "2^32, 2^63, 2^64-1, times int or float with fraction, extended maps of 0-5 bytes or str entries; "
     "non-trivial = at least one set has >= 2 field groups present (or a size >= 2^32, or extended entries); "
@@ -89,7 +100,40 @@ attr_set = st.fixed_dictionaries(
     }
 )
 
-case_st = st.tuples(attr_set, attr_set)
+# read-only operations of SFTPAttributes (formatting) and where in the history of the objects they are applied
+OBSERVERS = ["str", "repr", "asbytes", "add_string"]
+POSITIONS = ["a", "a-decoded", "b", "b-decoded"]
+obs_list = st.one_of(
+    st.just([]),
+    st.lists(st.tuples(st.sampled_from(POSITIONS), st.sampled_from(OBSERVERS)), min_size=1, max_size=4),
+)
+
+case_st = st.tuples(attr_set, attr_set, obs_list)
+
+
+def _observe(ctx, obj, kinds):
+    """Apply read-only operations to `obj`.  They have no verdict of their own (the statement is about encoding and
+    decoding); one that raises is counted and the history goes on."""
+    from paramiko.message import Message
+
+    for kind in kinds:
+        try:
+            if kind == "str":
+                str(obj)
+            elif kind == "repr":
+                repr(obj)
+            elif kind == "asbytes":
+                obj.asbytes()
+            elif kind == "add_string":
+                Message().add_string(obj)
+            else:
+                raise AssertionError(kind)
+        except AssertionError:
+            raise
+        except Exception as e:
+            ctx.count("observer-raised:%s:%s" % (kind, type(e).__name__))
+        else:
+            ctx.count("observed:" + kind)
 
 
 def _expected_flags(s):
@@ -132,11 +176,12 @@ def _norm(s):
     }
 
 
-def _check_one(ctx, jcase, which, src, s):
+def _check_one(ctx, jcase, which, src, s, obs_src=(), obs_back=()):
     from paramiko.message import Message
     from paramiko.sftp_attr import SFTPAttributes
 
     exp_flags = _expected_flags(s)
+    _observe(ctx, src, obs_src)
     m = Message()
     try:
         src._pack(m)
@@ -233,6 +278,22 @@ def _check_one(ctx, jcase, which, src, s):
         ctx.violation("flags", "decoded-object", jcase, "set %s: _flags=%#x expected %#x" % (which, back._flags, exp_flags))
         return False
 
+    # (b') looking at the decoded object must not change it
+    if obs_back:
+        before = _snapshot(back)
+        _observe(ctx, back, obs_back)
+        after = _snapshot(back)
+        if after != before:
+            changed = [n for n, x, y in zip(_SNAP_NAMES, before, after) if x != y]
+            ctx.violation(
+                "decoded-object-changed-by-formatting",
+                ",".join(changed),
+                jcase,
+                "set %s: after %s the decoded object has %s, before it had %s"
+                % (which, "+".join(obs_back), dict(zip(_SNAP_NAMES, after)), dict(zip(_SNAP_NAMES, before))),
+            )
+            return False
+
     # (c) re-encode
     if not reencode:
         return True
@@ -246,6 +307,13 @@ def _check_one(ctx, jcase, which, src, s):
         ctx.violation("reencode-differs", _first_present(s), jcase, "set %s: %s vs %s" % (which, m2.asbytes().hex()[:100], raw.hex()[:100]))
         return False
     return True
+
+
+_SNAP_NAMES = ("size", "uid", "gid", "mode", "atime", "mtime", "extended", "flags")
+
+
+def _snapshot(a):
+    return (a.st_size, a.st_uid, a.st_gid, a.st_mode, a.st_atime, a.st_mtime, list(a.attr.items()), a._flags)
 
 
 def _first_present(s):
@@ -263,7 +331,11 @@ def execute(ctx, case):
     from paramiko.sftp_attr import SFTPAttributes
 
     a, b = _norm(case[0]), _norm(case[1])
+    obs = [(str(p), str(k)) for p, k in (case[2] if len(case) > 2 else [])]
     jcase = {"a": a, "b": b}
+    if obs:
+        jcase["obs"] = [list(o) for o in obs]
+    at = dict((p, [k for q, k in obs if q == p]) for p in POSITIONS)
     nontrivial = any(_groups(s) >= 2 or (s["size"] or 0) >= (1 << 32) or s["ext"] for s in (a, b))
     classes = ["groups:%d" % _groups(a)]
     if a["times"] is not None and any(isinstance(t, float) for t in a["times"]):
@@ -272,20 +344,27 @@ def execute(ctx, case):
         classes.append("reuse-drops-a-field")
     if any(isinstance(k, str) for s in (a, b) for k, _ in s["ext"]):
         classes.append("str-extended")
+    for p, k in obs:
+        classes.append("observed-before-encode:%s:%s" % ("decoded-object" if p.endswith("-decoded") else "source-object", k))
+    for p in POSITIONS:
+        s = a if p.startswith("a") else b
+        if at[p] and (s["size"] is None or s["ids"] is None or s["mode"] is None or s["times"] is None):
+            classes.append("observed-with-absent-fields")
+            break
     ctx.case(jcase, bool(nontrivial), classes)
 
     src = SFTPAttributes()
     _fill(src, a)
-    if not _check_one(ctx, jcase, "a", src, a):
+    if not _check_one(ctx, jcase, "a", src, a, at["a"], at["a-decoded"]):
         return
     _fill(src, b)  # same object, packed again
-    _check_one(ctx, jcase, "b(reused)", src, b)
+    _check_one(ctx, jcase, "b(reused)", src, b, at["b"], at["b-decoded"])
 
 
 def run(ctx):
     ctx.set_budget(60, 840)
-    ctx.explore(case_st, lambda c: execute(ctx, c), ctx.scale(4000, 100000))
+    ctx.explore(case_st, lambda c: execute(ctx, c), ctx.scale(3600, 100000))
 
 
 def replay(ctx, case):
-    execute(ctx, (case["a"], case["b"]))
+    execute(ctx, (case["a"], case["b"], case.get("obs") or []))
